@@ -40,6 +40,12 @@ LIFTS = {
         'anchor': r"for\s+line_mapping\s+in\s+raw_mappings\s*\.split\(';'\)\s*\{",
         'expect': [r"split\(','\)", r'mappings\.push', r'let\s+mut\s+column\s*=\s*0'],
     },
+    # body of the per-token loop of serialize_range_mappings
+    'range_mappings_token_body': {
+        'file': 'src/encoder.rs',
+        'anchor': r"for\s*\(\s*idx\s*,\s*token\s*\)\s+in\s+sm\.tokens\(\)\.enumerate\(\)\s*\{",
+        'expect': [r'token\.is_range\(\)', r'encode_rmi\(', r"buf\.push\(b';'\)"],
+    },
     # body of the per-token loop of SourceMapIndex::flatten
     'flatten_token_body': {
         'file': 'src/types.rs',
@@ -202,7 +208,8 @@ PROPS['C04'] = {
 
 PROPS['C07'] = {
     'title': 'Range mappings survive serialisation and shift lookups inside the range',
-    'functions': ['types::SourceMap::lookup_token', 'types::Token::get_src_col', SEG_FUNCS[0], 'decoder::decode_rmi'],
+    'functions': ['types::SourceMap::lookup_token', 'types::Token::get_src_col', SEG_FUNCS[0], 'decoder::decode_rmi',
+                  'encoder::serialize_range_mappings (per-token loop body, lifted)', 'encoder::encode_rmi (thorough tier)'],
     'harnesses': [
         H('c07_lookup_n%d' % n, 'types', 'quick' if n <= 4 else 'thorough', 900, 8,
           'every sorted map of exactly %d tokens with arbitrary range flags x every (line, col)' % n)
@@ -210,10 +217,26 @@ PROPS['C07'] = {
     ] + seg_harnesses([4, 5, 8], []) + [
         H('c07_rmi_decode_len1', 'decoder', 'quick', 900, 10, 'decode_rmi (real bitvec code) on every 1-character ASCII string: bit layout, foreign characters refused'),
         H('c07_rmi_decode_len2', 'decoder', 'quick', 1200, 12, 'decode_rmi on every 2-character ASCII string'),
-    ] + line_harnesses([1], [2, 3]),
-    'assumptions': ['struct-literal maps, tokens assumed sorted (C04)'] + SEG_ASSUME,
+    ] + line_harnesses([1], [2, 3]) + [
+        H('c07_rmi_ser_n%d' % n, 'encoder_rmi', 'quick', 900, 10,
+          'lifted per-token body of serialize_range_mappings with recording mocks: %s then exactly %d tokens on lines 0..3 '
+          '(non-decreasing), arbitrary range flags' % ('0..40 non-range tokens on line 0' if n < 4 else 'no leading tokens', n),
+          allow_uncovered={1: ['two range tokens on one line', 'empty line after'], 4: ['index >= 16']}.get(n))
+        for n in (1, 2, 3, 4)
+    ] + [
+        H('c07_rmi_encode_n1', 'encoder', 'thorough', 1200, 12, 'real encode_rmi (bitvec) on every 1-byte bit field: digit k/6 bit k%6, trailing zero digits trimmed'),
+        H('c07_rmi_encode_n2', 'encoder', 'thorough', 1800, 14, 'real encode_rmi on every 2-byte bit field'),
+        H('c07_rmi_ser_idle', 'encoder_rmi', 'quick', 900, 10,
+          'lifted body from an arbitrary writer state: a non-range token on the current line changes nothing'),
+    ],
+    'assumptions': ['struct-literal maps, tokens assumed sorted (C04)'] + SEG_ASSUME + [
+        'c07_rmi_ser_*: L1 lifting of the per-token body of serialize_range_mappings; its prologue (initial values) and epilogue '
+        '(flush when had_rmi) are written out in the harness; token / rmi_data / buf are recording mocks, encode_rmi is a recorder '
+        '(the real one is decided by c07_rmi_encode_n1/_n2); the mock bit field panics on set() past 8*len like bitvec'],
     'trusted': [],
-    'outside': [],
+    'outside': ['the loop header, prologue and epilogue of serialize_range_mappings (harness-written copies)',
+                'bit fields wider than 64 flags per line; more than 4 tokens after the leading run; lines beyond 3',
+                'the pairing of mappings lines with rangeMappings entries in decode_regular (outer loop header)'],
 }
 
 PROPS['C05'] = {
